@@ -113,6 +113,49 @@ Definition svd_present (qnr : list label) (qntot : label) (nl : label) : bool :=
 Definition svd_dim (qnl qnr : list label) (qntot : label) (nl : label) : nat :=
   Nat.min (length (lset qnl nl)) (length (rset qnr (svd_rkey qntot) nl)).
 
+(* ------------------------------------------------------------------ structural facts of the source
+   tx/svdqn.py reads renormalizer/mps/svd_qn.py statement by statement and emits these facts as
+   Gen.SvdQnShape.src_shape.  [ref_shape] is the shape this model (and every proof) is written for; the obligation
+   src_shape = ref_shape (Proofs.SvdQnProofs.shape_ok) ties them.  The "_s" definitions below are the model
+   instantiated with a shape: the skip conditions, the label selectors and the eigenvalue post-processing really
+   depend on it (so the correspondence can still be evaluated on a changed source), the remaining fields are
+   check-list facts whose only accepted value is the one of ref_shape. *)
+Inductive labsel := LabNl | LabNr.       (* the appended columns are labelled nl / nr = qntot - nl *)
+Inductive idxsel := IdxL | IdxR.         (* ... and scattered to the rows lset / rset *)
+Record shape := {
+  sh_loop_left : bool;            (* svd_qn loops over the set of LEFT labels; rows of coef_matrix are the left index *)
+  sh_svd_skip_empty : bool;       (* if len(rset) == 0: continue *)
+  sh_gather_rowmajor : bool;      (* ravel().take(lset * shape[1] + rset) *)
+  sh_dim_min : bool;              (* dim = min(block.shape) *)
+  sh_u_label : labsel; sh_u_index : idxsel;                               (* blockappend(.., block_u, nl, dim, lset, shape[0]) *)
+  sh_v_label : labsel; sh_v_index : idxsel; sh_v_transposed : bool;       (* blockappend(.., block_vt.T, nr, dim, rset, shape[1]) *)
+  sh_qr_L_is_qr : bool; sh_qr_R_is_rq : bool;                             (* system "L" -> qr, "R" -> rq *)
+  sh_append_split_at_dim : bool;  (* blockappend: v[:, :dim] to the list, v[:, dim:] to the list "0" iff full_matrices *)
+  sh_scatter_by_index : bool;     (* blockrecover: resortU[indices, :] = U *)
+  sh_mask_all_components : bool;  (* get_qn_mask: np.all(qnmat == qntot, axis=-1) *)
+  sh_main_before_extra : bool;    (* concatenate(list + list0) for u, v, su, sv and both label lists *)
+  sh_sort_econ_only : bool;       (* the sort runs iff not full_matrices (and after the QR return) *)
+  sh_sort_desc : bool;            (* s_order = argsort(su)[::-1], applied to u, v, su, sv and both label lists *)
+  sh_eigh_skip_no_partner : bool; (* eigh_qn: if np.sum(get_qn_mask(comp_qnbig, qntot - nl)) == 0: continue *)
+  sh_eigh_system_L_is_left : bool;
+  sh_eigh_clip_negative : bool;   (* block_s2[block_s2 < 0] = 0 *)
+  sh_eigh_sqrt : bool             (* block_s = np.sqrt(block_s2) *)
+}.
+Definition ref_shape : shape := {|
+  sh_loop_left := true; sh_svd_skip_empty := true; sh_gather_rowmajor := true; sh_dim_min := true;
+  sh_u_label := LabNl; sh_u_index := IdxL; sh_v_label := LabNr; sh_v_index := IdxR; sh_v_transposed := true;
+  sh_qr_L_is_qr := true; sh_qr_R_is_rq := true; sh_append_split_at_dim := true; sh_scatter_by_index := true;
+  sh_mask_all_components := true; sh_main_before_extra := true; sh_sort_econ_only := true; sh_sort_desc := true;
+  sh_eigh_skip_no_partner := true; sh_eigh_system_L_is_left := true; sh_eigh_clip_negative := true; sh_eigh_sqrt := true |}.
+
+Definition lab (sel : labsel) (qntot nl : label) : label := match sel with LabNl => nl | LabNr => lsub qntot nl end.
+Definition svd_present_s (sh : shape) (qnr : list label) (qntot : label) (nl : label) : bool :=
+  if sh_svd_skip_empty sh then svd_present qnr qntot nl else true.
+Definition eigh_present (comp : list label) (qntot : label) (nl : label) : bool :=
+  match idxs comp (lsub qntot nl) with [] => false | _ => true end.   (* np.sum(mask) == 0: continue *)
+Definition eigh_present_s (sh : shape) (comp : list label) (qntot : label) (nl : label) : bool :=
+  if sh_eigh_skip_no_partner sh then eigh_present comp qntot nl else true.
+
 (* ------------------------------------------------------------------ numerical part *)
 Section Numeric.
   Variable R : CRing.
@@ -181,6 +224,27 @@ Section Numeric.
     let o := svd_qn_pre qnl qnr qntot order W in
     if full then o else permute p o.
 
+  (* the same with the structural facts read from the source ([svd_qn_s ref_shape] is [svd_qn] by computation) *)
+  Definition svd_qn_pre_s (sh : shape) (qnl qnr : list label) (qntot : label) (order : list label) (W : label -> bfac) : svdout :=
+    let rk := svd_rkey qntot in
+    let pr := svd_present_s sh qnr qntot in
+    let dimf := svd_dim qnl qnr qntot in
+    let main := cols_main pr order dimf in
+    let cu := main ++ cols_extra pr order dimf (fun nl => ku (W nl)) in
+    let cv := main ++ cols_extra pr order dimf (fun nl => kv (W nl)) in
+    let K := length main in
+    {| oU := asm cu (Ud qnl W);
+       oSu := fun k => if Nat.ltb k K then Sd W (nth k main d0) else 0;
+       oQl := map (fun d => lab (sh_u_label sh) qntot (fst d)) cu; oKu := length cu;
+       oV := asm cv (Vd qnr rk W);
+       oSv := fun k => if Nat.ltb k K then Sd W (nth k main d0) else 0;
+       oQr := map (fun d => lab (sh_v_label sh) qntot (fst d)) cv; oKv := length cv;
+       oKmain := K |}.
+  Definition svd_qn_s (sh : shape) (full : bool) (qnl qnr : list label) (qntot : label) (order : list label)
+             (W : label -> bfac) (p : list nat) : svdout :=
+    let o := svd_qn_pre_s sh qnl qnr qntot order W in
+    if full then o else permute p o.
+
   (* ---- contracts of the witnesses (hypotheses of the soundness theorems) ---- *)
   Definition delta (c c' : nat) : R := if Nat.eqb c c' then r1 R else 0.
   Definition orthonormal_cols (rows k : nat) (M : mat) : Prop :=
@@ -213,15 +277,24 @@ Section Numeric.
       qr_block_ok sy (gather (length qnr) A ls rs) (length ls) (length rs) (W nl).
 
   (* ---- eigh_qn : blocks of the reduced density matrix on one side ---- *)
-  Definition eigh_present (comp : list label) (qntot : label) (nl : label) : bool :=
-    match idxs comp (lsub qntot nl) with [] => false | _ => true end.   (* np.sum(mask) == 0: continue *)
-
   Record eighout := { eU : mat; eL : nat -> R; eQ : list label; eK : nat }.
 
   (* bu = eigenvectors, bs = eigenvalues of the block *)
   Definition eigh_qn (qn comp : list label) (qntot : label) (order : list label) (W : label -> bfac) : eighout :=
     let main := cols_main (eigh_present comp qntot) order (fun nl => length (lset qn nl)) in
     {| eU := asm main (Ud qn W); eL := fun k => Sd W (nth k main d0); eQ := map fst main; eK := length main |}.
+
+  Definition eigh_qn_s (sh : shape) (qn comp : list label) (qntot : label) (order : list label) (W : label -> bfac) : eighout :=
+    let main := cols_main (eigh_present_s sh comp qntot) order (fun nl => length (lset qn nl)) in
+    {| eU := asm main (Ud qn W); eL := fun k => Sd W (nth k main d0); eQ := map fst main; eK := length main |}.
+
+  (* the returned "singular values":  block_s2[block_s2 < 0] = 0 ; block_s = np.sqrt(block_s2).
+     neg x stands for x < 0, sqrtw for np.sqrt (abstract, contracts in the theorem) *)
+  Definition eigh_post (sh : shape) (neg : R -> bool) (sqrtw : R -> R) (x : R) : R :=
+    let c := if sh_eigh_clip_negative sh then (if neg x then 0 else x) else x in
+    if sh_eigh_sqrt sh then sqrtw c else c.
+  Definition eS (sh : shape) (neg : R -> bool) (sqrtw : R -> R) (o : eighout) : nat -> R :=
+    fun k => eigh_post sh neg sqrtw (eL o k).
 
   Definition eigh_block_ok (blk : mat) (mb : nat) (w : bfac) : Prop :=
     ku w = mb /\
@@ -231,6 +304,22 @@ Section Numeric.
   Definition eigh_witness_ok (qn comp : list label) (qntot : label) (order : list label)
              (A : mat) (W : label -> bfac) : Prop :=
     forall nl, In nl (bkeys (eigh_present comp qntot) order) ->
+      let ls := lset qn nl in eigh_block_ok (gather (length qn) A ls ls) (length ls) (W nl).
+
+  (* the witness contracts for the blocks the shaped model processes *)
+  Definition svd_witness_ok_s (sh : shape) (full : bool) (qnl qnr : list label) (qntot : label) (order : list label)
+             (A : mat) (W : label -> bfac) : Prop :=
+    forall nl, In nl (bkeys (svd_present_s sh qnr qntot) order) ->
+      let ls := lset qnl nl in let rs := rset qnr (svd_rkey qntot) nl in
+      svd_block_ok full (gather (length qnr) A ls rs) (length ls) (length rs) (W nl).
+  Definition qr_witness_ok_s (sh : shape) (sy : side) (qnl qnr : list label) (qntot : label) (order : list label)
+             (A : mat) (W : label -> bfac) : Prop :=
+    forall nl, In nl (bkeys (svd_present_s sh qnr qntot) order) ->
+      let ls := lset qnl nl in let rs := rset qnr (svd_rkey qntot) nl in
+      qr_block_ok sy (gather (length qnr) A ls rs) (length ls) (length rs) (W nl).
+  Definition eigh_witness_ok_s (sh : shape) (qn comp : list label) (qntot : label) (order : list label)
+             (A : mat) (W : label -> bfac) : Prop :=
+    forall nl, In nl (bkeys (eigh_present_s sh comp qntot) order) ->
       let ls := lset qn nl in eigh_block_ok (gather (length qn) A ls ls) (length ls) (W nl).
 
   (* descending order of the first K entries of s, with respect to an arbitrary relation *)
@@ -249,49 +338,49 @@ Arguments eU {R} _ _ _. Arguments eL {R} _ _. Arguments eQ {R} _. Arguments eK {
    permuted labels.  Encoded as one flat list of integers for comparison with the implementation. *)
 Definition zl (l : list nat) : list Z := Z.of_nat (length l) :: map Z.of_nat l.
 
-Definition struct_blocks (md : mode) (qnl qnr : list label) (qntot : label) (order : list label) : list Z :=
-  let keys := bkeys (svd_present qnr qntot) order in
+Definition struct_blocks (sh : shape) (md : mode) (qnl qnr : list label) (qntot : label) (order : list label) : list Z :=
+  let keys := bkeys (svd_present_s sh qnr qntot) order in
   Z.of_nat (length keys) ::
   flat_map (fun nl =>
       let ls := lset qnl nl in let rs := rset qnr (svd_rkey qntot) nl in
       let kk := block_cols md (length ls) (length rs) in
       nl ++ zl ls ++ zl rs ++ [Z.of_nat (Nat.min (length ls) (length rs)); Z.of_nat (fst kk); Z.of_nat (snd kk)]) keys.
 
-Definition struct_labels (md : mode) (qnl qnr : list label) (qntot : label) (order : list label) (p : list nat)
+Definition struct_labels (sh : shape) (md : mode) (qnl qnr : list label) (qntot : label) (order : list label) (p : list nat)
   : list Z :=
-  let pr := svd_present qnr qntot in
+  let pr := svd_present_s sh qnr qntot in
   let dimf := svd_dim qnl qnr qntot in
   let kf (sel : nat * nat -> nat) := fun nl => sel (block_cols md (length (lset qnl nl)) (length (rset qnr (svd_rkey qntot) nl))) in
   let main := cols_main pr order dimf in
   let cu := main ++ cols_extra pr order dimf (kf fst) in
   let cv := main ++ cols_extra pr order dimf (kf snd) in
-  let ql := map fst cu in
-  let qr := map (fun d => svd_rkey qntot (fst d)) cv in
+  let ql := map (fun d => lab (sh_u_label sh) qntot (fst d)) cu in
+  let qr := map (fun d => lab (sh_v_label sh) qntot (fst d)) cv in
   let perm (q : list label) := if m_full md then q else
         match m_deco md with DSvd => map (fun k => nth k q []) p | DQr => q end in
   [Z.of_nat (length main); Z.of_nat (length cu); Z.of_nat (length cv)]
     ++ concat (perm ql) ++ concat (perm qr).
 
-Definition struct_eigh (qn comp : list label) (qntot : label) (order : list label) : list Z :=
-  let keys := bkeys (eigh_present comp qntot) order in
-  let main := cols_main (eigh_present comp qntot) order (fun nl => length (lset qn nl)) in
+Definition struct_eigh (sh : shape) (qn comp : list label) (qntot : label) (order : list label) : list Z :=
+  let keys := bkeys (eigh_present_s sh comp qntot) order in
+  let main := cols_main (eigh_present_s sh comp qntot) order (fun nl => length (lset qn nl)) in
   Z.of_nat (length keys) :: flat_map (fun nl => nl ++ zl (lset qn nl)) keys
     ++ [Z.of_nat (length main)] ++ concat (map fst main).
 
 (* witness validity + model output, -1 flags an invalid witness, -2 "Invalid quantum number" *)
-Definition svd_case (md : mode) (qnl qnr : list label) (qntot : label) (order : list label) (p : list nat) : list Z :=
+Definition svd_case (sh : shape) (md : mode) (qnl qnr : list label) (qntot : label) (order : list label) (p : list nat) : list Z :=
   if negb (wf_labelsb qntot qnl && wf_labelsb qntot qnr && order_okb order qnl) then [(-1)%Z] else
-  match bkeys (svd_present qnr qntot) order with
+  match bkeys (svd_present_s sh qnr qntot) order with
   | [] => [(-2)%Z]
   | _ =>
-    let K := length (cols_main (svd_present qnr qntot) order (svd_dim qnl qnr qntot)) in
+    let K := length (cols_main (svd_present_s sh qnr qntot) order (svd_dim qnl qnr qntot)) in
     if negb (m_full md) && (match m_deco md with DSvd => negb (perm_okb p K) | DQr => false end) then [(-1)%Z] else
-    struct_blocks md qnl qnr qntot order ++ struct_labels md qnl qnr qntot order p
+    struct_blocks sh md qnl qnr qntot order ++ struct_labels sh md qnl qnr qntot order p
   end.
 
-Definition eigh_case (qn comp : list label) (qntot : label) (order : list label) : list Z :=
+Definition eigh_case (sh : shape) (qn comp : list label) (qntot : label) (order : list label) : list Z :=
   if negb (wf_labelsb qntot qn && wf_labelsb qntot comp && order_okb order qn) then [(-1)%Z] else
-  match bkeys (eigh_present comp qntot) order with
+  match bkeys (eigh_present_s sh comp qntot) order with
   | [] => [(-2)%Z]
-  | _ => struct_eigh qn comp qntot order
+  | _ => struct_eigh sh qn comp qntot order
   end.
